@@ -45,7 +45,7 @@ ASSUMPTIONS = [
     "yices' unsat answers and cores are trusted; satisfiable ground truth comes from an independent z3 check / the planted witness",
     "with the cache on the solver may return a different model: counterexamples are compared by count and by replay, not by value",
 ]
-WATCHDOG_S = {"quick": 900, "thorough": 7200}
+WATCHDOG_S = {"quick": 2400, "thorough": 10800}
 
 MANIFEST = {
     "technique": "metamorphic testing (cache off vs on in one process, forced garbage collection between paths) on generated many-core test functions, plus model-based histories of solve_end_to_end through per-test FunctionContexts of one ContractContext (dropped/kept paths, several tests, cores of up to 44 ids) with independent sat/unsat ground truth",
@@ -415,7 +415,7 @@ def _run_api_tests(case, acc, a, cctx, V, setup_atoms, setup_path, dd):
 
 
 def shards(tier):
-    n = 12 if tier == "quick" else 250
+    n = 9 if tier == "quick" else 200
     return [{"mode": "e2e", "n": n} for _ in range(10)] + [{"mode": "api", "n": 5 * n} for _ in range(4)] + [{"mode": "chain", "n": n} for _ in range(2)]
 
 
